@@ -42,7 +42,12 @@ def gen_query(rng, V, facts, extra=None):
             return "%s %s" % (x, u)
         if r2 < 0.5:
             e = V.pick(rng)
-            return "%s %s^-%d" % (mag(rng)[0], e["word"], rng.randint(1, 3))
+            pw = rng.randint(1, 3) if rng.random() < 0.7 else rng.choice([9, 10, 11, 12, 25, 64, 99])       # (two-digit powers: every digit has to be printed)
+            if rng.random() < 0.3:
+                o = V.pick(rng)
+                if o["key"] != e["key"]:
+                    return "%s %s^%d/%s^%d" % (mag(rng)[0], o["word"], rng.choice([1, 2, 10, 12]), e["word"], pw)
+            return "%s %s^-%d" % (mag(rng)[0], e["word"], pw)
         fs = V.rand_factors(rng, nmax=3)
         return "%s %s" % (mag(rng)[0], G.text(fs, rng))
     if r < 0.03:
@@ -144,6 +149,7 @@ def shard(p):
         V.error_parts = [c for cs in kinds.values() for c in cs]
         for k in kinds:
             acc.seen("error_kinds_in_multi_result_queries", k)
+        readable = {}
         for _ in range(p["n"]):
             q = gen_query(rng, V, p["facts"], {"vocab": p["vocab"], "corpus": p["corpus"]} if p.get("vocab") else None)
             exact_mode = rng.random() < 0.5
@@ -200,6 +206,25 @@ def shard(p):
             acc.count("results_err", kinds.count("err"))
             if len(items) > 1:
                 acc.count("queries_with_several_results")
+            for it in items:
+                o = it.get("ok")
+                if o and o["u"] and "disp_reparsed" in o:
+                    # the unit text the library renders (and the binary prints), read back by the tool's own unit parser, denotes the
+                    # unit that was computed - whatever the rendering conventions are (seed C03-i: a two-digit power below the fraction
+                    # bar printed without its superscript)
+                    # (only units whose own rendered name the parser reads back as that unit: `fl oz` with its blank is not one of them)
+                    for key_, _pw, px_ in o["u"]:
+                        if (key_, px_) not in readable:
+                            r1 = d.call({"op": "compound_rt", "parts": [[key_, 1, px_]]})
+                            r2 = d.call({"op": "compound", "s": r1["ok"]}) if isinstance(r1.get("ok"), str) else {}
+                            readable[(key_, px_)] = bool(r2.get("ok")) and r2["ok"]["u"] == [[key_, 1, px_]]
+                    if o["disp_reparsed"] is None or not all(readable[(k_, x_)] for k_, _p, x_ in o["u"]):
+                        acc.count("rendered_unit_not_readable_back(no verdict)")
+                    else:
+                        acc.count("rendered_units_read_back")
+                        if sorted(map(tuple, o["disp_reparsed"])) != sorted(map(tuple, o["u"])):
+                            acc.violate("c19:rendered-unit-denotes-another-unit", "%r: the computed unit %s is rendered as %r, which reads back as %s" % (q, o["u"], o["disp"], o["disp_reparsed"]),
+                                        {"query": q, "exact": exact_mode, "computed_unit": o["u"], "rendered": o["disp"], "read_back": o["disp_reparsed"]})
             for it in items:
                 o = it.get("ok")
                 if o and o["u"]:
